@@ -275,8 +275,10 @@ func (w *world) subscribe(sp Sub, inTx bool) (ret *live) {
 			l.must, l.why = true, "queue not running when subscribing"
 		}
 	}
-	if ctx != nil && ctx.Err() != nil {
-		l.must, l.why = true, "context already ended when subscribing"
+	if ctx != nil && ctx.Err() != nil && !l.must {
+		// "its context ended and a transition has run since": an equal binding made while the
+		// context was alive may be re-used and only expires with the next accepted transition
+		l.either = true
 	}
 	w.subs = append(w.subs, l)
 	return l
